@@ -197,6 +197,7 @@ func dataClass(c *vf.Ctx, label string, class, n int) []byte {
 func run(c *vf.Ctx) {
 	c.Rule("(G) functions {SHA3-224/256/384/512, SHAKE128/256, legacy Keccak-256/512} x every message length 0..2*rate+1 and 1000 x write chunkings {one, byte-wise, strides 7/rate-1/rate/rate+1, every two-way split, boundary three-way splits} x value classes {seeded, 0xFF, 0x00}; XOFs x read chunkings; one-shot Sum/ShakeSum x every length (x output lengths); " +
 		"(C) cSHAKE128/256 x (N,S) lengths {0,1,200}^2 + {31,32,8191,8192} x message lengths {0,1,rate-1,rate,rate+1,2rate+1} x 1000 output bytes in two read chunkings; " +
+		"(P) cSHAKE128/256 x (N,S) = every split t[:i]/t[i:] (and t[:i]/t[i+1:] at separator-like bytes) of 9 short strings containing 0x00, 0x01, ',', '|', ':' and digits, all instantiated one after the other in one process (one string set ascending, an isomorphic set descending), each through Write/Sum/second-instance/Clone/Read/Reset against the model, all instances observed again at the end; " +
 		"(S) every history over {Write 1,rate-1,rate+1; Sum; CloneSwitch; CloneKeep; Read 0,1,rate-1,rate,rate+1,1000; Reset} to depth D (XOFs) and {Write 1,rate-1,rate,rate+1; Sum; Reset} (fixed-output), no state merging, every object observed again at the end. " +
 		"(L) long inputs 2^k+{-1,0,1,rate-1,rate,rate+1}, k=10..kmax (legacy Keccak, whose code lives in the package: kmax 20 quick / 22 thorough; functions forwarding to the standard library: 16 / 20) x write chunkings {one, 1/rate-1/rate+1 then rest, two parts meeting at 2^(k-1)+1, strides 4095 and 65537} on a reused (Reset) object + one-shot Sum, and for every io.Reader kind (XOFs, legacy sponge) output streams of those lengths in the same chunkings + ShakeSum. " +
 		"Non-initial states in (G): every message also with a double Sum in the middle at every cut (class 0; boundary cuts otherwise) and on an object that absorbed L other bytes and was Reset. " +
@@ -217,6 +218,7 @@ func run(c *vf.Ctx) {
 	c.Set("section_wall_L_s", fmt.Sprintf("%.1f", time.Since(tl).Seconds()))
 	t1 := time.Now()
 	cshakeGrid(c)
+	cshakePairs(c)
 	t2 := time.Now()
 	defer func() {
 		c.Set("section_wall_s", fmt.Sprintf("G=%.1f C=%.1f S=%.1f", t1.Sub(t0).Seconds(), t2.Sub(t1).Seconds(), time.Since(t2).Seconds()))
@@ -602,6 +604,152 @@ func cshakeGrid(c *vf.Ctx) {
 			c.Sample(map[string]any{"section": "C", "function": k.name, "msglen": x.ml, "first_bytes": vf.Hex8(want[:16])})
 		}
 	})
+}
+
+// ------------------------------------------------------------------ P (cSHAKE customization pairs in one process)
+
+// cshakePairs: (N,S) pairs that are every split of short strings containing 0x00, 0x01,
+// ',', '|' and digits - t[:i] / t[i:] for every i, and t[:i] / t[i+1:] when t[i] is one of
+// those separator-like bytes - so that N||S, N||sep||S and digit-prefixed concatenations
+// coincide across DIFFERENT pairs. All pairs of a variant are instantiated one after the
+// other in ONE process (first string set in ascending order, an isomorphic second set in
+// descending order, so each member of a colliding group is once the first and once the
+// later one), every earlier instance stays alive, and each instance is compared with the
+// SP 800-185 model through Write/Sum/Read/Clone/Reset; a second instance of the same
+// (N,S) is created after the first has absorbed data and must start from the initial
+// state; all instances are observed once more at the very end.
+func cshakePairs(c *vf.Ctx) {
+	type pair struct{ N, S string }
+	mk := func(strs []string) []pair {
+		var ps []pair
+		seen := map[pair]bool{}
+		add := func(p pair) {
+			if !seen[p] {
+				seen[p] = true
+				ps = append(ps, p)
+			}
+		}
+		for _, t := range strs {
+			for i := 0; i <= len(t); i++ {
+				add(pair{t[:i], t[i:]})
+				if i < len(t) && strings.IndexByte("\x00\x01,|:0123456789", t[i]) >= 0 {
+					add(pair{t[:i], t[i+1:]})
+				}
+			}
+		}
+		return ps
+	}
+	set1 := mk([]string{"A\x00B\x00C", "\x00\x00\x00", "A\x01B\x01C", "a,b,c", "a|b|c", "1A1B2", "1:A1:B", "\x00\x01,|", "\x01A\x01B"})
+	set2 := mk([]string{"X\x00Y\x00Z", "\x00\x00\x00\x00", "X\x01Y\x01Z", "x,y,z", "x|y|z", "1X1Y2", "1:X1:Y", "\x01\x00|,", "\x01X\x01Y"})
+	for i, j := 0, len(set2)-1; i < j; i, j = i+1, j-1 {
+		set2[i], set2[j] = set2[j], set2[i]
+	}
+	order := append(set1, set2...)
+	msg := c.Bytes("P-msg", 0, 200)
+	for _, bits := range []int{128, 256} {
+		type live struct {
+			k *kind
+			h sha3.ShakeHash
+			p pair
+		}
+		var alive []live
+		bad := func(p pair, idx int, what string) {
+			c.Violation(fmt.Sprintf("cSHAKE%d: %s (customization pairs in one process)", bits, what),
+				map[string]any{"N": fmt.Sprintf("%q", p.N), "S": fmt.Sprintf("%q", p.S), "position_in_sequence": idx})
+		}
+		for idx, p := range order {
+			k := cshake(bits, []byte(p.N), []byte(p.S))
+			R := k.rate
+			want := k.stream(msg[:R+1], 300)
+			want0 := k.stream(nil, 300)
+			c.Eval(1)
+			fails := ""
+			if pn, v, _ := vf.Protect(func() {
+				h := k.newShake()
+				h.Write(msg[:R+1])
+				if got := sumInto(h, k.outLen)[3:]; !bytes.Equal(got, want[:k.outLen]) {
+					fails = "Sum != SP 800-185 reference"
+					return
+				}
+				// a second instance of the same (N,S), created while the first holds data
+				h2 := k.newShake()
+				out := dirty(300)
+				h2.Read(out)
+				if !bytes.Equal(out, want0) {
+					fails = "second instance of the same (N,S) does not start from the initial state"
+					return
+				}
+				cl := h.Clone()
+				out = dirty(300)
+				h.Read(out)
+				if !bytes.Equal(out, want) {
+					fails = "Read output != SP 800-185 reference"
+					return
+				}
+				out = dirty(300)
+				cl.Read(out)
+				if !bytes.Equal(out, want) {
+					fails = "Clone output != SP 800-185 reference"
+					return
+				}
+				h.Reset()
+				h.Write(msg[:1])
+				h.Write(msg[1 : R+1])
+				out = dirty(300)
+				h.Read(out)
+				if !bytes.Equal(out, want) {
+					fails = "output after Reset != SP 800-185 reference"
+					return
+				}
+				// a fresh instance kept alive (absorbing) for the final pass
+				keep := k.newShake()
+				keep.Write(msg[:7])
+				alive = append(alive, live{k, keep, p})
+			}); pn {
+				fails = fmt.Sprintf("unexpected panic: %v", v)
+			}
+			if fails != "" {
+				bad(p, idx, fails)
+				continue
+			}
+			if len(p.N)+len(p.S) > 0 {
+				c.Nontrivial(fmt.Sprintf("P/%d/%q/%q", bits, p.N, p.S))
+			}
+			if p.N == "A" && p.S == "B\x00C" {
+				c.Sample(map[string]any{"section": "P", "function": k.name, "N": fmt.Sprintf("%q", p.N), "S": fmt.Sprintf("%q", p.S), "pairs_in_process": len(order), "first_bytes": vf.Hex8(want[:16])})
+			}
+		}
+		// every instance created along the way is still the instance of ITS (N,S)
+		for idx, l := range alive {
+			c.Eval(1)
+			fails := ""
+			if pn, v, _ := vf.Protect(func() {
+				want := l.k.stream(msg[:7], 100)
+				if got := l.h.Sum(nil); !bytes.Equal(got, want[:l.k.outLen]) {
+					fails = "instance kept alive: Sum != SP 800-185 reference after other customizations were instantiated"
+					return
+				}
+				cl := l.h.Clone()
+				out := dirty(100)
+				cl.Read(out)
+				if !bytes.Equal(out, want) {
+					fails = "instance kept alive: Clone output != SP 800-185 reference after other customizations were instantiated"
+					return
+				}
+				l.h.Reset()
+				out = dirty(100)
+				l.h.Read(out)
+				if !bytes.Equal(out, l.k.stream(nil, 100)) {
+					fails = "instance kept alive: output after Reset != SP 800-185 reference after other customizations were instantiated"
+				}
+			}); pn {
+				fails = fmt.Sprintf("unexpected panic: %v", v)
+			}
+			if fails != "" {
+				bad(l.p, idx, fails)
+			}
+		}
+	}
 }
 
 // ------------------------------------------------------------------ S
